@@ -12,9 +12,8 @@ pub fn from_repr_inner(ast: &DeriveInput) -> syn::Result<TokenStream> {
 
     let mut discriminant_type: Type = syn::parse("usize".parse().unwrap()).unwrap();
     if let Some(type_path) = ast
-        .get_type_properties()
-        .ok()
-        .and_then(|tp| tp.enum_repr)
+        .get_type_properties()?
+        .enum_repr
         .and_then(|repr_ts| syn::parse2::<Type>(repr_ts).ok())
     {
         if let Type::Path(path) = type_path.clone() {
